@@ -54,6 +54,10 @@ var CRLBehaviours = []string{
 	// unacceptable lists that say (issuingDistributionPoint) they cover CA certificates only
 	"expired-idp-only-ca", "wrong-signer-idp-only-ca",
 	"delta-no-number", "base-no-number-delta",
+	// the entry about the certificate carries an excusing invalidity date AND an
+	// unknown critical extension, encoded behind / in front of the date: an entry
+	// nobody can fully read is no evidence of good standing
+	"crit-entry-ext-after-inv-date", "crit-entry-ext-before-inv-date",
 	"fetch-fail",
 }
 
@@ -261,6 +265,13 @@ func (k *Kit) buildCRL(beh string, slot int) *CRLSet {
 	case "crit-list-ext-after-idp":
 		base.IDP = true // the unknown critical extension is encoded after a known one
 		base.UnknownCrit = true
+	case "crit-entry-ext-after-inv-date":
+		far := time.Date(2095, 1, 1, 0, 0, 0, 0, time.UTC)
+		base.Entries = append(base.Entries, pki.CRLEntry{Serial: serial, Time: t1, Reason: 1, Invalidity: &far, UnknownCritical: true})
+	case "crit-entry-ext-before-inv-date":
+		far := time.Date(2095, 1, 1, 0, 0, 0, 0, time.UTC)
+		base.Entries = append(base.Entries, pki.CRLEntry{Serial: serial, Time: t1, Reason: 1, Extra: []pkix.Extension{
+			{Id: pki.OIDUnknownExt, Critical: true, Value: []byte{0x05, 0x00}}, {Id: pki.OIDInvalidity, Value: pki.GeneralizedTimeDER(far)}}})
 	case "crit-entry-ext":
 		base.Entries = append(base.Entries, pki.CRLEntry{Serial: serial, Time: t1, Reason: 8, UnknownCritical: true})
 	case "other-crit-entry":
